@@ -6,6 +6,7 @@ import (
 	"fmt"
 	"reflect"
 	"strings"
+	"sync"
 	"sync/atomic"
 	"time"
 
@@ -86,6 +87,18 @@ func scriptsFor[V any](tname string, data func(seed int) []V) []script {
 			l := col.List[V](N()).MakeFromArray(data(seed))
 			v := l.GetClass().Notation().ParseSource(fmt.Sprintf("[%d, %d](Set)", seed+5, seed))
 			return cdc.Notation().Make().FormatValue(v)
+		}},
+		{"shuffle", func(seed int) string {
+			// collections of different sizes (the result is random: only its being a permutation is reported)
+			d := data(seed)
+			for k := 0; k < seed*3; k++ {
+				d = append(d, data(seed)[k%4])
+			}
+			l := col.List[V](N()).MakeFromArray(d)
+			l.ShuffleValues()
+			a := append([]V(nil), d...)
+			age.Sorter[V]().Make().ShuffleValues(a)
+			return fmt.Sprint(l.GetSize(), len(a))
 		}},
 		{"iterate", func(seed int) string {
 			l := col.List[V](N()).MakeFromArray(data(seed))
@@ -395,6 +408,7 @@ func units(tier string) []engine.Unit {
 	}
 	us = append(us, derivedUnits()...)
 	us = append(us, formatterFirstUse())
+	us = append(us, engine.RacePassUnit("C19"))
 	N := common.N
 	us = append(us,
 		firstUse("List[int] twice", []func() any{func() any { return col.List[int](N()) }, func() any { return col.List[int](N()) }}, [][2]int{{0, 1}}),
@@ -412,11 +426,12 @@ func units(tier string) []engine.Unit {
 }
 
 func init() {
+	engine.RegisterRacePrograms("C19", racePrograms)
 	engine.Register(&engine.Check{
 		ID:        "C19",
 		Technique: "stateless model checking under the cooperative scheduler with vector-clock race detection on every execution: all pairs of ten operation families on disjoint instances (primitive and composite element types) in two threads (three in the thorough tier), all interleavings by sleep sets where that completes (operations on different objects commute) else preemption bounding; first-use programs on reset class registries with every registry lock a scheduling point",
 		Rule:      "case = one schedule of one pair of scripts; every thread's result must equal the script run alone; a race on any struct field, package variable or map is a violation",
-		Assume:    []string{"2 goroutines (3 thorough) instead of 2..16; the randomized stress under the Go race detector (sampling) is not a deciding step", "memory not covered by the source-level access log (slice elements, stdlib internals) is not race-checked"},
+		Assume:    []string{"2 goroutines (3 thorough) instead of 2..16", "memory not covered by the source-level access log (whole-slice operations, standard-library internals) is race-checked only by the auxiliary free-running pass under Go's race detector (three goroutines per script pair; sampling: it adds reports, its silence decides nothing)"},
 		Budget: func(tier string) time.Duration {
 			if tier == "thorough" {
 				return 25 * time.Minute
@@ -425,4 +440,36 @@ func init() {
 		},
 		Units: units,
 	})
+}
+
+// racePrograms: the same script bodies, run free in three goroutines behind a
+// start barrier, for the auxiliary pass under Go's race detector.
+func racePrograms() []engine.RaceProgram {
+	var ps []engine.RaceProgram
+	add := func(tname string, ss []script) {
+		for i := range ss {
+			for j := i; j < len(ss); j++ {
+				i, j := i, j
+				ps = append(ps, engine.RaceProgram{Name: fmt.Sprintf("%s: %s || %s || %s", tname, ss[i].name, ss[j].name, ss[i].name), Run: func() {
+					var start, done sync.WaitGroup
+					start.Add(1)
+					for k, s := range []script{ss[i], ss[j], ss[i]} {
+						k, s := k, s
+						done.Add(1)
+						go func() {
+							defer done.Done()
+							defer func() { recover() }()
+							start.Wait()
+							s.run(k)
+						}()
+					}
+					start.Done()
+					done.Wait()
+				}})
+			}
+		}
+	}
+	add("int", scriptsFor[int]("int", ints))
+	add("[]int", scriptsFor[[]int]("[]int", slices))
+	return ps
 }
